@@ -96,8 +96,12 @@ def build_noncopy():
     return Case('C20|noncopy', src, {'union': 'ManuallyDrop<T>'}, expect='accept', run=True, depth=1)
 
 
-def build_default(nf, p, expr):
+def build_default(nf, p, expr, nodefault=False):
     tys = ['u8', 'u16', 'u32'][:nf]
+    if nodefault:
+        # the other fields have types without Default: only the designated field's type may be asked for it
+        others = ['fn(u8) -> u8', '[u16; 40]', "&'static No", '*const u8'][:nf - 1]
+        tys = others[:p] + ['u8'] + others[p:]
     fields = ''
     for i, t in enumerate(tys):
         if i == p:
@@ -107,7 +111,7 @@ def build_default(nf, p, expr):
     want = '0' if expr is None else '9'
     src += 'pub fn check(r: &mut Rep) {\n    let x = Ty::default();\n    let got = unsafe { x.f%d };\n' % p
     src += '    r.ck(got == %s, 0, &|| format!("default().f%d = {}, expected %s", got));\n}\n' % (want, p, want)
-    return Case('C20|default|%d|%d|%s' % (nf, p, expr), src, {'fields': nf, 'designated': p, 'expr': expr}, expect='accept', run=True, depth=1)
+    return Case('C20|default|%d|%d|%s%s' % (nf, p, expr, '|nodefault' if nodefault else ''), src, {'fields': nf, 'designated': p, 'expr': expr}, expect='accept', run=True, depth=1)
 
 
 def generate(tier):
@@ -125,6 +129,10 @@ def generate(tier):
         for p in range(nf):
             for expr in (None, 'Default = 9', 'Default(expression = 9)', 'Default(expr(4 + 5))'):
                 cases.append(build_default(nf, p, expr))
+                if nf > 1:
+                    cases.append(build_default(nf, p, expr, nodefault=True))
+    for p in range(5):
+        cases.append(build_default(5, p, None, nodefault=True))
     return cases
 
 
@@ -133,7 +141,7 @@ RULE = ('unions with 1..3 fields over {u8, [u8;1], [u8;2], u16, [u8;4], u32, [u8
         '{all together, each alone}; values: every byte pattern for sizes 1 and 2, each byte over {00, 01, FF} above; Debug against '
         'debug_tuple(name).field(&bytes) / the bare slice in both formats, == against byte equality on all pairs of the pair domain '
         '(all 65 536 pairs for size 1), the recorded Hasher trace against hashing the byte slice, clone bitwise, Copy probed; Clone '
-        'on a union over ManuallyDrop<T> must not apply to a non-Copy T; Default initialises the designated field; the `unsafe` marker: every marker-less form (bare, empty list in each delimiter, name-only, `unsafe` not first) of Debug / PartialEq / Hash on a union must be refused with a diagnostic')
+        'on a union over ManuallyDrop<T> must not apply to a non-Copy T; Default initialises the designated field (also when the other fields' types have no Default); the `unsafe` marker: every marker-less form (bare, empty list in each delimiter, name-only, `unsafe` not first) of Debug / PartialEq / Hash on a union must be refused with a diagnostic')
 
 
 def reject_cases():
